@@ -316,11 +316,16 @@ func verifV1ScalePairs() ([]JsonNode, []JsonNode) {
 func verifV1ScaleA() []JsonNode { a, _ := verifV1ScalePairs(); return a }
 func verifV1ScaleB() []JsonNode { _, b := verifV1ScalePairs(); return b }
 
-// verifV1Scale (C17, C18): the round trip (direct and through text) and the RFC renderings on a large pair.
+// verifV1Scale (C17): the round trip (direct and through text) on a large pair.
 func verifV1Scale(a, b JsonNode) string {
 	if s := verifV1RoundTrip(a, b, nil); s != "" {
 		return "C17: " + s
 	}
+	return ""
+}
+
+// verifV1ScaleRFC (C18): the RFC 6902 and RFC 7386 renderings on a large pair.
+func verifV1ScaleRFC(a, b JsonNode) string {
 	if s := verifV1Patch(a, b); s != "" {
 		return "C18 (RFC 6902): " + s
 	}
@@ -331,3 +336,8 @@ func verifV1Scale(a, b JsonNode) string {
 	}
 	return ""
 }
+
+// verifV1NumberEdges (C17) / verifV1NumberEdgesRFC (C18): the same two statements over documents
+// with numbers at representation edges.
+func verifV1NumberEdges(a, b JsonNode) string    { return verifV1Scale(a, b) }
+func verifV1NumberEdgesRFC(a, b JsonNode) string { return verifV1ScaleRFC(a, b) }
